@@ -109,6 +109,18 @@ def run(ctx):
         m = check_case(c, r, st)
         if m:
             common.report(ctx, "%s:%s" % (c["kind"], m[0]), m[1], dict(start=c["start"], history=[{k: o[k] for k in ("o", "i", "j", "v", "key", "other", "r")} for o in c["h"]], source=r.get("src"), display=r.get("display")))
+    # ---- literals (ZnEval machine: mkdict = first position, last value; mklist) incl. repeated keys, then keyed writes
+    import zneval as Z, itertools
+    lprogs = []
+    keysets = [ks for n in (1, 2, 3, 4) for ks in itertools.product("ab" if n > 3 else "abc", repeat=n)]
+    for ks in keysets:
+        main = [Z.decl("D", Z.dct(list(ks), [Z.num(i + 1) for i in range(len(ks))])), Z.disp(Z.var("D")),
+                Z.iter_(["K", "V"], Z.var("D"), [Z.disp(Z.var("K"), Z.var("V"))]),
+                Z.ex(Z.asg(Z.idx(Z.var("D"), Z.s("b")), Z.num(9))), Z.ex(Z.asg(Z.idx(Z.var("D"), Z.s("z")), Z.num(8))), Z.disp(Z.var("D")), Z.ex(Z.num(0))]
+        p = Z.prog(main); p["tag"] = "dict-literal:" + "".join(ks); lprogs.append(p)
+    p = Z.prog([Z.decl("L", Z.lst(Z.num(3), Z.num(3), Z.lst(), Z.s("x"))), Z.disp(Z.var("L"), Z.idx(Z.var("L"), Z.num(1)), Z.idx(Z.var("L"), Z.num(4))),
+                Z.iter_(["I", "V"], Z.var("L"), [Z.disp(Z.var("I"), Z.var("V"))]), Z.ex(Z.num(0))]); p["tag"] = "list-literal"; lprogs.append(p)
+    lstats, _, _ = Z.run_family(ctx, znh, lprogs, "c12lit")
     # ---- trace validation of long random histories recorded from the real value types
     nh, ln = (30, 500) if ctx.tier == "quick" else (150, 2000)
     hres = common.run_harness(ctx, znh, "collhist", [dict(id=i, seed=ctx.seed * 7919 + i, len=ln) for i in range(nh)])
@@ -119,10 +131,10 @@ def run(ctx):
             if r["obs"] != "done":
                 common.report(ctx, "recorder:%s" % r["obs"], "collhist driver: %s" % r.get("detail", ""), dict(result=r))
                 continue
-            f.write(json.dumps(dict(o="reset", i=0, j=0, v=0, key="", other=[], r={"k": "init"}, l=[], dk=[], dv=[], dn=0)) + "\n"); nlines += 1
+            f.write(json.dumps(dict(o="reset", i=0, j=0, v=0, key="", other=[], r={"k": "init"}, l=[], dk=[], dv=[], dn=0, kept=[])) + "\n"); nlines += 1
             for e in r["log"]:
                 f.write(json.dumps(e) + "\n"); nlines += 1
-    common.corrupt_trace(tf, ["dn"])
+    common.corrupt_trace(tf, ["dn", "v"])
     ttxt, tinfo = common.tlc(ctx, "Trace_ZnColl", "Trace_ZnColl.cfg", workers=1, timeout=900, files=[(tf, "trace.ndjson")], allow_violation=True)
     accepted = not tinfo["violated"]
     if not accepted:
@@ -141,8 +153,8 @@ def run(ctx):
                rule="every history of 3 list operations (14 operations x arguments, 5 start lists; 841k) and 3 (thorough 4) dictionary operations "
                     "(8 operations, 4 start dictionaries) from ZnColl - quick replays a TLC-seeded 1/20 (list) and 1/3 (dict) of them - is turned into one Zn program that displays "
                     "the reply, the collection, its length, text form / 所有索引 / 所有值 / generated JSON after every step and iterates over it at the "
-                    "end; invariants and laws are also checked to length 8 with a VIEW; %d random histories of %d operations over 9 values / 8 keys are "
-                    "RECORDED from value.Array/value.HashMap and validated by TLC against Trace_ZnColl (accepted=%s)" % (nh, ln, accepted),
-               find_base_inferred=st.get("fb"), trace_lines=nlines, trace_accepted=accepted)
+                    "end; %d dictionary literals over <=4 keys incl. every pattern of repeated keys (ZnEval: first position, last value) followed by keyed writes; invariants and laws are also checked to length 8 with a VIEW; %d random histories of %d operations over 9 values / 8 keys are "
+                    "RECORDED from value.Array/value.HashMap and validated by TLC against Trace_ZnColl (accepted=%s)" % (len(lprogs), nh, ln, accepted),
+               literal_programs=lstats["programs"], find_base_inferred=st.get("fb"), trace_lines=nlines, trace_accepted=accepted)
     return cov, ["寻找's index base (0 in the draft API document, 1 suggested by '1-indexed') is inferred and must be consistent",
                  "新增/添加 positions, fractional indices and setters on empty lists are not demanded (DESIGN C12)"]
